@@ -209,12 +209,14 @@ def _run_names_case(case):
             K.drain()
             post = walk(parent)
             # the same conversion into an empty parent: tells where the output goes and what it must be
-            fparent = os.path.join(tmp, f"fresh{i}")
-            os.makedirs(fparent)
-            fout = convert_call(case["entry"], st["variant"], mk(fparent), case["fmt"], False, work)
-            K.drain()
-            fresh = walk(fparent)
-            tops = sorted({k.split("/")[0] for k in fresh})
+            # (not repeated for a call that was refused: the output location depends on the name only)
+            if out == "ok" or i == 0:
+                fparent = os.path.join(tmp, f"fresh{i}")
+                os.makedirs(fparent)
+                fout = convert_call(case["entry"], st["variant"], mk(fparent), case["fmt"], False, work)
+                K.drain()
+                fresh = walk(fparent)
+                tops = sorted({k.split("/")[0] for k in fresh})
             in_out = lambda k: k.split("/")[0] in tops  # noqa: E731
             had = any(in_out(k) for k in pre)
             o = {"i": i, "out": out, "fresh_out": fout, "output_tops": tops, "had_output": had,
@@ -265,7 +267,7 @@ def gen_names_cases(ck):
             for as_ in ("str", "path"):
                 for fmt in (2, 3):
                     n += 1
-                    if ck.quick and n % 4 != (OUTPUT_NAMES.index(name) % 4):
+                    if ck.quick and n % 5 != (OUTPUT_NAMES.index(name) % 5):
                         continue   # quick: every name x entry once, alternating str/Path and format
                     if entry.startswith("cli_") and as_ == "path":
                         continue
@@ -320,6 +322,8 @@ def gen_cases(ck):
                         continue
                     if ck.quick and ((kind == "str") or (entry in ("api_rx",) and sib)):
                         continue
+                    if ck.quick and kind != "mem" and entry in ("write_dicts", "api_rx", "api_sg") and (sib or fmt == 3):
+                        continue   # quick: the dict/rx/sg writers share write_arrays' guard; full matrix on MemoryStore
                     if ck.quick and kind in K.TILDE_KINDS and (
                             sib or (kind, fmt) not in (("tilde-str", 2), ("tilde-path", 3)) or entry in ("api_rx", "api_sg")):
                         continue   # quick: ~/… as str in format 2 and as Path in format 3, without siblings
@@ -330,7 +334,7 @@ def gen_cases(ck):
                         steps.append({"entry": entry, "graph": small_graph(rng, 3, entry), "fmt": fmt, "overwrite": True})
                     cases.append({"kind": kind, "sib": sib, "steps": steps, "stream": "matrix"})
     # seeded random histories of length 2-4, mixed entry points
-    nrand = 24 if ck.quick else 500
+    nrand = 12 if ck.quick else 500
     for _ in range(nrand):
         kind = rng.choice(K.KINDS + K.TILDE_KINDS)
         entries = graph_entries + (list(K.CONVERTERS) if kind in pathlike else [])
